@@ -24,11 +24,12 @@ import (
 
 	"verif/lib/ev"
 	"verif/lib/explore"
-	"verif/lib/recvworld"
-	"verif/lib/xrun"
+	"verif/lib/loopworld"
 	"verif/lib/par"
 	"verif/lib/pb"
+	"verif/lib/recvworld"
 	"verif/lib/world"
+	"verif/lib/xrun"
 )
 
 func rep(c byte, n int) []byte { return bytes.Repeat([]byte{c}, n) }
@@ -354,10 +355,12 @@ func runRecv(param json.RawMessage, ctx *explore.Ctx, viols *[]xrun.Viol) string
 
 func main() {
 	flag.Parse()
-	par.ServeIfWorker(map[string]par.Handler{"t": runTask, "recv": xrun.Handler(runRecv)})
+	par.ServeIfWorker(map[string]par.Handler{"t": runTask, "recv": xrun.Handler(runRecv), "loop": xrun.Handler(runLoop)})
 	if v, ok := ev.ReplayRequested(); ok {
 		if strings.HasPrefix(v.Part, "receiver-placement") {
 			xrun.Replay(v, runRecv)
+		} else if strings.HasPrefix(v.Part, "syncer-run-once") {
+			xrun.Replay(v, runLoop)
 		} else {
 			var hexBlob string
 			if v.ReplayField("blob_hex", &hexBlob) {
@@ -455,5 +458,31 @@ func main() {
 		xrun.Explore(r, name, xrun.Opts{Kind: "recv", Bound: ev.Pick(r, 1, 2), Budget: 40, Recycle: 2,
 			Param: recvworld.Cfg{DownloadLimit: 2, DecompressLimit: ev.Pick(r, 1, 2), Instances: []string{"b", "c"}, Corrupt: pl, Faults: r.Thorough(), Polls: 1}})
 	}
+	// ---------- part (c): the whole Syncer ----------
+	for _, corrupt := range []string{"only", "newest"} {
+		for _, empty := range []bool{true, false} {
+			for _, native := range []bool{true, false} {
+				name := fmt.Sprintf("syncer-run-once-corrupt-%s-%s-%s", corrupt, map[bool]string{true: "fresh", false: "steady"}[empty], map[bool]string{true: "native", false: "shadow"}[native])
+				if r.Expired() {
+					r.AddPart(&ev.Part{Name: name, Engine: "E3", Exhaustive: false, Bound: "not started: time budget used up"})
+					continue
+				}
+				xrun.Explore(r, name, xrun.Opts{Kind: "loop", Bound: ev.Pick(r, 1, 2), Budget: 30, Recycle: 4,
+					Param: loopworld.Cfg{Native: native, OnlyOnce: true, EmptyStart: empty, Corrupt: corrupt, LoadFaults: r.Thorough(), MaxVisits: 1, AppOps: []string{"put-b"}}})
+			}
+		}
+	}
 	r.Finish()
+}
+
+func runLoop(param json.RawMessage, ctx *explore.Ctx, viols *[]xrun.Viol) string {
+	var cfg loopworld.Cfg
+	_ = json.Unmarshal(param, &cfg)
+	res := loopworld.Run(cfg, ctx)
+	for _, v := range res.Viols {
+		if strings.HasPrefix(v.Sig, "c16:") || v.Sig == "loop-stuck" || v.Sig == "loop-never-goes-idle" {
+			*viols = append(*viols, xrun.Viol{Sig: "c08:" + strings.TrimPrefix(v.Sig, "c16:"), Msg: v.Msg})
+		}
+	}
+	return fmt.Sprintf("%s/stores=%d/loads=%d", res.Outcome, res.Stores, res.Loads)
 }
